@@ -24,7 +24,7 @@ class Undecided(Exception):
 
 # ----------------------------------------------------------------------------- expressions
 IDENT = re.compile(r'^[A-Za-z_][A-Za-z0-9_]*$')
-DROP_METHODS = ("clone", "to_owned", "to_vec", "into", "as_slice", "iter", "into_iter", "as_ref_slice")
+DROP_METHODS = ("clone", "to_owned", "to_vec", "into", "as_slice", "iter", "into_iter", "as_ref", "as_deref", "as_mut", "borrow")
 
 
 TOKEN = re.compile(r"""
@@ -425,6 +425,21 @@ class Eval:
             if tk[-3] == "is_none":
                 return z3.Not(self.at.some(x))
             return self.at.empty(x)
+        # X.len() == 0 / != 0 / > 0 / >= 1 / < 1   (and the mirrored forms) mean the same as is_empty()
+        for i, op in enumerate(tk):
+            if op in ("==", "!=", ">", ">=", "<", "<=") and 0 < i < len(tk) - 1:
+                l, r = tk[:i], tk[i + 1:]
+                flip = {"==": "==", "!=": "!=", ">": "<", "<": ">", ">=": "<=", "<=": ">="}
+                if len(l) == 1 and l[0] in ("0", "1") and len(r) > 4:
+                    l, r, op = r, l, flip[op]
+                if len(r) == 1 and r[0] in ("0", "1", "0usize", "1usize") and len(l) > 4 and l[-4:] == [".", "len", "(", ")"]:
+                    x = canon(" ".join(l[:-4]), env)
+                    n = r[0][0]
+                    e = self.at.empty(x)
+                    table = {("==", "0"): e, ("!=", "0"): z3.Not(e), (">", "0"): z3.Not(e), (">=", "1"): z3.Not(e), ("<", "1"): e, ("<=", "0"): e}
+                    if (op, n) in table:
+                        return table[(op, n)]
+                break
         # X.iter().any(|v| BODY) on an Option
         if "any" in tk:
             k = tk.index("any")
@@ -665,7 +680,10 @@ class Eval:
                         out.append({"g": g, "kind": "let", "attrs": (ref, "after_loop(%s|%s)" % (env[v], it)), "children": [], "line": n.get("line")})
                         env[v] = ref
             elif k == "return":
-                out.append({"g": g, "kind": "ret", "attrs": (canon(n["expr"], env),), "children": [], "line": n.get("line")})
+                val = canon(n["expr"], env)
+                # `return;` / `return Ok(())` only end the function: their effect is the guard of what follows.
+                # Returns that carry a value (refusals, results) are part of the normal form.
+                out.append({"g": g, "kind": "ret", "attrs": (val,), "children": [], "line": n.get("line"), "trivial": val in ("", "Ok(())", "()")})
                 alive = z3.BoolVal(False)
             elif k == "cfg":
                 if self.cfg_on(n["pred"]):
@@ -818,6 +836,8 @@ def dump(nf, ind=0, lines=None, skip_stmt=True, theory=()):
     lines = [] if lines is None else lines
     for n in nf:
         if skip_stmt and n["kind"] == "stmt":
+            continue
+        if n.get("trivial"):
             continue
         g = fmt_guard(n["g"], theory)
         lines.append("  " * ind + render(n) + ("    when " + g if g else ""))
@@ -1029,6 +1049,8 @@ def compare(code_nodes, want_nodes, at, keep_stmt, path="", outer=None):
     for n in code_nodes:
         if n["kind"] == "stmt" and not keep_stmt:
             continue
+        if n.get("trivial"):
+            continue
         # statically dead nodes (guard unsatisfiable under the enclosing guard) are not emissions
         s = z3.Solver()
         s.add(*th)
@@ -1043,6 +1065,15 @@ def compare(code_nodes, want_nodes, at, keep_stmt, path="", outer=None):
             raise Mismatch("missing emission: the contract requires `%s`%s at %s but the code emits nothing there" % (w["text"], (" when " + w["guard"]) if w["guard"] else "", path or "top level"),
                            model=model_of(z3.And(outer, parse_guard(w["guard"], at)) if w["guard"] else outer, at.theory()), cline=w["ln"])
         c = code[i]
+        if i < len(want_nodes) and render(c) != want_nodes[i]["text"]:
+            # emissions under mutually exclusive guards may appear in any order in the source (e.g. reordered match
+            # arms): look ahead for the expected line and move it here if everything it jumps over excludes it
+            for j in range(i + 1, len(code)):
+                if render(code[j]) == want_nodes[i]["text"]:
+                    if all(model_of(z3.And(outer, code[k]["g"], code[j]["g"]), th) is None for k in range(i, j)):
+                        code.insert(i, code.pop(j))
+                        c = code[i]
+                    break
         if i >= len(want_nodes):
             raise Mismatch("extra emission: the code emits `%s` (line %s) at %s which the contract does not allow" % (render(c), c.get("line"), path or "top level"),
                            model=model_of(z3.And(outer, c["g"]), at.theory()), line=c.get("line"))
